@@ -35,6 +35,11 @@ def roles_of(e, roles):
             r = role_of_name(t or "")
             if r:
                 out.add(r)
+        elif isinstance(n, ast.Call) and call_name(n) not in ("getattr",):
+            # a helper or closure parametrised by the side: `requested_mime(args, 'from')`, `explicit_mime('to')`
+            for a in n.args:
+                if isinstance(a, ast.Constant) and a.value in ("from", "to"):
+                    out.add(a.value)
     return out
 
 
